@@ -327,6 +327,8 @@ int main(int argc, char **argv)
         nes = MAX_ES;
     if (nact > MAX_ACTORS)
         nact = MAX_ACTORS;
+    if (!strcmp(family, "condq")) /* long queues, many polls: idle streams eat most of the default step budget under PCT */
+        setenv("VS_BUDGET", "15000000", 0);
     ABT_init(0, NULL);
     vsa_begin();
     vs_note("scenario sync family=%s nes=%d nact=%d rounds=%d", family, nes, nact, rounds);
